@@ -460,6 +460,10 @@ fn c02(c: &mut Ctx) {
     ps.extend(posgen::f3a(c.thorough));
     ps.extend(posgen::f3d(c.thorough));
     ps.extend(posgen::f3e(c.thorough));
+    ps.extend(posgen::f3_crosspin().into_iter().step_by(if c.thorough { 1 } else { 4 }));
+    ps.extend(posgen::f3_allpinned().into_iter().step_by(if c.thorough { 1 } else { 6 }));
+    ps.extend(posgen::f3_manycheckers());
+    ps.extend(posgen::f3a_discover());
     for p in &ps {
         c.pos(p);
         makelike_all(c, p, true);
@@ -646,6 +650,8 @@ fn c07(c: &mut Ctx) {
     ps.extend(posgen::f3a(c.thorough));
     ps.extend(posgen::f3c().0);
     ps.extend(posgen::f3_allpinned());
+    ps.extend(posgen::f3_crosspin());
+    ps.extend(posgen::f3_manycheckers());
     let singles = posgen::f3i(&mut c.rng, if c.thorough { 60 } else { 12 }, if c.thorough { 3_000_000 } else { 400_000 });
     for p in &singles {
         let ms = true_legal_moves(&p.board);
@@ -831,6 +837,9 @@ fn c09(c: &mut Ctx) {
         ps.push(c.rng.pick(&f3).clone());
     }
     ps.extend(posgen::f3_wrap());
+    ps.extend(posgen::f3a_discover());
+    ps.extend(posgen::f3_crosspin().into_iter().step_by(6));
+    ps.extend(posgen::f3_manycheckers());
     // single-group positions reached by a checking move: the check / mate mark of that move
     // depends on one generator group of has_legal_moves
     {
@@ -998,6 +1007,20 @@ fn c10(c: &mut Ctx) {
             chosen.push(p);
         }
     }
+    // the board-edge positions: every grammar string between the two edge files (where index arithmetic wraps)
+    for p in posgen::f3_wrap() {
+        c.pos(&p);
+        let raw = p.raw_text();
+        for s in all.iter().filter(|s| {
+            let b = s.as_bytes();
+            b.len() >= 4 && (b[0] == b'a' || b[0] == b'h') && (b[2] == b'a' || b[2] == b'h')
+        }) {
+            let enc = str_enc(s);
+            for mode in ["basic", "semi", "legal"] {
+                c.case("uciinto", &format!("uciinto {} {} {}", raw, enc, mode));
+            }
+        }
+    }
     for p in &chosen {
         c.pos(p);
         let raw = p.raw_text();
@@ -1163,6 +1186,23 @@ fn c12(c: &mut Ctx) {
     }
     let nc = c.vol(100, 15.0);
     chains(c, nc, Flavor::JunkList);
+    // the short pawn-capture forms (every ordered pair of files, with and without a promotion suffix) and every UCI-shaped
+    // edge move, read in the positions with an en-passant mark on an edge file
+    for p in posgen::f3_wrap().iter().chain(posgen::f3a(false).iter().step_by(17)) {
+        c.pos(p);
+        let raw = p.raw_text();
+        let files = "abcdefgh";
+        for a in files.chars() {
+            for b in files.chars() {
+                if a != b {
+                    for suffix in ["", "=Q", "N", "+", "#"] {
+                        c.str_case("saninto", &format!("saninto {} ", raw), &format!("{}{}{}", a, b, suffix), "");
+                    }
+                    c.str_case("saninto", &format!("saninto {} ", raw), &format!("{}x{}", a, b), "");
+                }
+            }
+        }
+    }
 }
 
 fn c13(c: &mut Ctx) {
@@ -1185,6 +1225,37 @@ fn c13(c: &mut Ctx) {
         c.st.chain(&s.steps, s.final_len, &s.obs);
         c.case("chain", &s.line);
     }
+    // castlings pushed into a chain as a move, as UCI and as SAN — the legal ones and the ones that are semilegal but land
+    // on an attacked square (a refused push must change nothing)
+    let mut castle_pos: Vec<Pos> = posgen::f3d(false);
+    for fen in [
+        "4k3/8/8/2b5/8/8/8/4K2R w K - 0 1",
+        "4k3/8/8/8/8/2b5/8/R3K3 w Q - 0 1",
+        "r3k3/8/1N6/8/8/8/8/4K3 b q - 0 1",
+        "4k2r/8/8/8/1B6/8/8/4K3 b k - 0 1",
+    ] {
+        if let Ok(b) = owlchess::Board::from_fen(fen) {
+            castle_pos.push(Pos { sent: *b.raw(), board: b, fam: "F3d" });
+        }
+    }
+    let mut n_castle = 0;
+    for p in &castle_pos {
+        for m in semis(&p.board) {
+            if m.kind() != MoveKind::CastlingKingside && m.kind() != MoveKind::CastlingQueenside {
+                continue;
+            }
+            n_castle += 1;
+            if n_castle > if c.thorough { 400 } else { 60 } {
+                break;
+            }
+            c.pos(p);
+            let san = if m.kind() == MoveKind::CastlingKingside { "O-O" } else { "O-O-O" };
+            for push in [format!("pm {}", mv_fmt(&m)), format!("pu {}", str_enc(&m.to_string())), format!("ps {}", str_enc(san))] {
+                let s = chaingen::gen_text_line(&mut c.rng, p, &[push]);
+                c.case("chain", &s.line);
+            }
+        }
+    }
 }
 
 fn c14(c: &mut Ctx) {
@@ -1196,6 +1267,30 @@ fn c14(c: &mut Ctx) {
         c.st.bump(&format!("finisher_{}", class));
         let s = chaingen::gen_finisher(&p, &m);
         c.case("chain", &s.line);
+    }
+    // repetitions in positions with insufficient material and with clocks near the limits: the mandatory draw must be
+    // reported, not the claimable repetition
+    for fen in [
+        "8/8/4k3/8/8/3KB3/8/8 w - - 10 60",
+        "8/8/4k3/8/8/3KN3/8/8 b - - 3 7",
+        "8/8/4k3/8/8/3K4/8/8 w - - 0 1",
+        "8/8/4kb2/8/8/3KB3/8/8 w - - 0 1",
+        "8/8/4k3/8/8/3KR3/8/8 w - - 140 90",
+        "8/8/4k3/8/8/3KR3/8/8 w - - 92 90",
+        "8/8/4k3/8/8/3KBB2/8/8 w - - 0 1",
+    ] {
+        if let Ok(b) = owlchess::Board::from_fen(fen) {
+            let p = Pos { sent: *b.raw(), board: b, fam: "C14-draws" };
+            for _ in 0..3 {
+                c.pos(&p);
+                let s = chaingen::gen_deep_repeat(&mut c.rng, &p);
+                c.st.chain(&s.steps, s.final_len, &s.obs);
+                c.case("chain", &s.line);
+                let s = chaingen::gen_script(&mut c.rng, &p, Flavor::Repetition, 60);
+                c.st.chain(&s.steps, s.final_len, &s.obs);
+                c.case("chain", &s.line);
+            }
+        }
     }
     // one position occurring six to nine times, popped back across the thresholds, partly replayed
     for _ in 0..(n / 4).max(20) {
@@ -1314,6 +1409,21 @@ fn c16(c: &mut Ctx) {
     let n = c.vol(2000, 50.0);
     let mut ps = posgen::mix_f1_f2(&mut c.rng, n);
     ps.extend(posgen::f3c().0);
+    // several queens / rooks / bishops of one colour (a query that stops at the first man of a kind), many checkers at once
+    ps.extend(posgen::f3h(&mut c.rng, false).into_iter().step_by(2));
+    ps.extend(posgen::f3_manycheckers());
+    ps.extend(posgen::f3_crosspin().into_iter().step_by(8));
+    for fen in [
+        "7k/Q7/8/8/8/8/1Q6/K7 b - - 0 1",
+        "7k/R7/8/8/8/8/7R/K7 b - - 0 1",
+        "7k/8/8/8/3B4/8/8/K5B1 b - - 0 1",
+        "k7/8/8/8/8/8/6q1/q6K w - - 0 1",
+        "6k1/8/8/8/8/1N6/8/K4N2 b - - 0 1",
+    ] {
+        if let Ok(b) = owlchess::Board::from_fen(fen) {
+            ps.push(Pos { sent: *b.raw(), board: b, fam: "C16-many" });
+        }
+    }
     for p in &ps {
         c.pos(p);
         let raw = p.raw_text();
@@ -1421,6 +1531,10 @@ fn c18(c: &mut Ctx) {
     let mut ps = posgen::mix_f1_f2(&mut c.rng, n);
     ps.extend(posgen::f3a(false));
     ps.extend(posgen::f3d(false));
+    ps.extend(posgen::f3_allpinned());
+    ps.extend(posgen::f3_crosspin().into_iter().step_by(3));
+    ps.extend(posgen::f3_manycheckers());
+    ps.extend(posgen::f3a_discover());
     for p in &ps {
         c.pos(p);
         c.case("mirror v", &format!("mirror {} v", p.raw_text()));
@@ -1534,6 +1648,14 @@ fn c19(c: &mut Ctx) {
             let b = c.rng.pick(&by_count).1;
             c.case("geninto2", &format!("geninto2 {} {}", a.raw_text(), b.raw_text()));
         }
+    }
+    // the legality machinery's own small buffers: three and more checkers at once, several pins at once
+    for p in posgen::f3_manycheckers().iter().chain(posgen::f3_allpinned().iter().step_by(5)).chain(posgen::f3_crosspin().iter().step_by(9)) {
+        c.pos(p);
+        let raw = p.raw_text();
+        c.case("gen", &format!("gen {} 0 1", raw));
+        c.case("outcome", &format!("outcome {}", raw));
+        c.case("check", &format!("check {}", raw));
     }
     // the generators' output size asked of board objects that a make / unmake has touched (a promoted queen that is
     // missing from a colour set is transparent: more moves than the position has)
